@@ -371,6 +371,19 @@ impl GroupStateStorage for SimGroupStorage {
     ) -> Result<(), Self::Error> {
         gate(&self.faults, "group.write")?;
         let gid = state.id.clone();
+        // what is stored for the other groups of this party must not be disturbed by this write
+        let others: Vec<(Vec<u8>, StoredView)> = self
+            .group_ids()
+            .into_iter()
+            .filter(|o| *o != gid)
+            .map(|o| {
+                let v = match &self.backend {
+                    Backend::Sql(s) | Backend::Mirror(_, s) => view_of(s, &o),
+                    Backend::Mem(m) => view_of(m, &o),
+                };
+                (o, v.unwrap_or(StoredView { state: None, max_epoch: None, epochs: Default::default() }))
+            })
+            .collect();
         let r = match &mut self.backend {
             Backend::Mem(m) => m.write(state, epoch_inserts, epoch_updates).map_err(se),
             Backend::Sql(s) => s.write(state, epoch_inserts, epoch_updates).map_err(se),
@@ -389,7 +402,25 @@ impl GroupStateStorage for SimGroupStorage {
                 a.and(b)
             }
         };
+        for (o, before) in others {
+            let after = match &self.backend {
+                Backend::Sql(s) | Backend::Mirror(_, s) => view_of(s, &o),
+                Backend::Mem(m) => view_of(m, &o),
+            };
+            if after.ok().as_ref() != Some(&before) {
+                self.faults.lock().unwrap().mirror_violations.push(format!(
+                    "a write for one group changed what is stored for another group of the same party (group id {})",
+                    String::from_utf8_lossy(&o)
+                ));
+            }
+        }
         self.mirror_check(&gid, "write");
+        // a write for one group must not disturb what is stored for the others
+        for other in self.group_ids() {
+            if other != gid {
+                self.mirror_check(&other, "write of another group");
+            }
+        }
         r
     }
 
